@@ -148,12 +148,12 @@ Section Transducer.
       destruct (IH (nq q x) i1 _ Lk _ _ _ HS) as [j HSr].
       pose proof (Hlit q i x i1 p1 t1 Lv Y) as HL.
       assert (NE : firstn (S k - length (out q x)) (touts (nq q x) r) <> []).
-      { intro E. apply (f_equal (@length val)) in E. rewrite firstn_length in E. cbn in E. lia. }
+      { intro E. apply (f_equal (@length val)) in E. rewrite firstn_length in E. cbn [length] in E. lia. }
       rewrite firstn_app, map_length. rewrite firstn_all2 by (rewrite map_length; lia).
       destruct (out q x) as [|[v t] rest] eqn:O.
       + cbn [map app length sumt fold_right] in *.
         remember (firstn (S k - 0) (touts (nq q x) r)) as l eqn:El. destruct l as [|w l']; [contradiction|].
-        destruct HSr as (j1 & a1 & b1 & a2 & b2 & Y1 & HS1 & -> & ->).
+        destruct HSr as (j1 & a1 & b1 & a2 & b2 & Y1 & HS1 & Ea & Eb).
         exists j. eapply StepsD_eq; [apply (StepsD_cons _ _ _ _ _ _ _ _ _ (HL _ _ _ _ Y1) HS1) | lia | lia].
       + destruct HL as (C & YC & _ & FC). destruct (FC _ _ _ _ NE HSr) as [j' HSC].
         exists j'. cbn [map fst app sumt fold_right snd].
@@ -201,6 +201,6 @@ Proof.
     rewrite firstn_app. rewrite firstn_all2 by lia.
     pose proof (oflist_steps vs []) as O. rewrite app_nil_r in O. pose proof (chain_steps B _ _ _ _ _ O) as C1.
     assert (N : firstn (k - length vs) ys <> []).
-    { intro E. apply (f_equal (@length val)) in E. rewrite firstn_length in E. cbn in E. lia. }
+    { intro E. apply (f_equal (@length val)) in E. rewrite firstn_length in E. cbn [length] in E. lia. }
     eapply StepsD_eq; [apply (StepsD_app _ _ _ _ _ _ _ _ _ C1 (chain_nil_steps B _ _ _ _ N HS)) | lia | lia].
 Qed.
